@@ -100,7 +100,6 @@ func roundTrip(p core.ProtocolID) {
 		verif.Assert(back.ProtocolId == p, "protocol-roundtrip")
 		verif.Assert(back.CounterpartyId == s, "counterparty-roundtrip")
 	}
-	verif.Assert(id.String() == id.ID(), "string-is-id")
 }
 
 func H_C20_roundtrip_ibc()      { roundTrip(core.PROTOCOL_IBC) }
